@@ -6,3 +6,5 @@ export CARGO_NET_OFFLINE=true
 for w in quick full c16; do python3 gen/gen.py $w progs-$w; done
 cargo build --release --offline -p mcx
 CARGO_TARGET_DIR=/verif/target/progs-quick cargo build --release --offline -p mcx-progs --features quick
+# the eight feature-set builds used by C16 (so that its first quick run is not dominated by compilation)
+cd /verif && ./check C16 --build-only
